@@ -1,8 +1,10 @@
 #!/bin/bash
-# usage: tools/run_seeds.sh <check-id> [tier]   - run every seeded change of that property
+# usage: tools/run_seeds.sh <check-id> [tier] [variants, e.g. "c d"]  - run seeded changes of that property
 cd "$(dirname "$0")/.."
-check=$1; tier=${2:-quick}
+check=$1; tier=${2:-quick}; variants=${3:-}
 for d in seeded/$check-*/; do
+  v=$(basename $d); v=${v#$check-}
+  if [ -n "$variants" ] && ! echo " $variants " | grep -q " $v "; then continue; fi
   out=$(tools/try_seed.sh $d/patch.diff $check $tier 2>&1)
   rc=$(echo "$out" | grep -o 'exit [0-9]*$' | tail -1)
   keys=$(echo "$out" | grep -E '^  key=' | cut -c1-150 | head -3 | tr '\n' ';')
